@@ -67,3 +67,31 @@ impl vstd::std_specs::convert::FromSpecImpl<u16> for FiniteF64 {
     open spec fn from_spec(v: u16) -> Self { f_of_int(v as int) }
 }
 impl From<u16> for FiniteF64 { #[verifier::external_body] fn from(v: u16) -> Self { unimplemented!() } }
+
+// ---- f64 <-> integer conversions used around FiniteF64 ----
+/// integer value of a double produced from an integer (uninterpreted; only facts below are known)
+pub uninterp spec fn f64_int(x: f64) -> int;
+pub assume_specification [<f64 as From<i32>>::from] (v: i32) -> (r: f64)
+    ensures f64_int(r) == v;
+/// nearest double of a 128-bit integer (exact within 2^53)
+pub uninterp spec fn f_of_i128(v: i128) -> FiniteF64;
+pub broadcast proof fn ax_f_of_i128(v: i128)
+    requires f_exact(v as int),
+    ensures #[trigger] f_of_i128(v) == f_of_int(v as int),
+{ admit(); }
+impl vstd::std_specs::convert::TryFromSpecImpl<i128> for FiniteF64 {
+    open spec fn obeys_try_from_spec() -> bool { true }
+    open spec fn try_from_spec(v: i128) -> Result<Self, TemporalError> { Ok(f_of_i128(v)) }
+}
+impl TryFrom<i128> for FiniteF64 {
+    type Error = TemporalError;
+    #[verifier::external_body]
+    fn try_from(v: i128) -> Result<Self, TemporalError> { unimplemented!() }
+}
+impl FiniteF64 {
+    /// copysign with a sign carrier obtained from an integer: magnitude kept, sign of `other` (zero counts as positive)
+    #[verifier::external_body]
+    pub fn copysign(&self, other: f64) -> (r: Self)
+        ensures integral(*self) ==> f_is(r, if fval(*self) == 0 { 0 } else if f64_int(other) < 0 { -(if fval(*self) < 0 { -fval(*self) } else { fval(*self) }) } else { if fval(*self) < 0 { -fval(*self) } else { fval(*self) } }),
+    { unimplemented!() }
+}
